@@ -415,7 +415,7 @@ PROPS = {
                 rule="histories with indexes created/dropped mid-history, replicas and restores; non-trivial = >=3 commits with deletes or merges"),
     "C04": dict(engines=[H("filter", 80, 1000)],
                 rule="histories with filter chains and terminals; non-trivial = a chain operator and a terminal in the history"),
-    "C07": dict(engines=[H("restore", 60, 800)],
+    "C07": dict(engines=[H("restore", 60, 800), H("dense", 3, 24, per_shard=1)],
                 rule="histories with snapshot->restore->continue cycles; non-trivial = a restore after >=2 commits"),
     "C11": dict(engines=[H("alloc", 60, 800), dict(engine="alloc", quick=300, thorough=6000)],
                 rule="insert/delete heavy histories; non-trivial = >=3 inserts with a delete or offset reuse"),
